@@ -3,8 +3,11 @@ import Midgard.Model.TimeArrayHist
 import Midgard.Generated.TimeArrayMech
 
 /-! Driver for C04: one line = one whole history.
-`c04 run <clear:0|1|src> F:<base>:<n> … | <op> <op> …`  (ops are `:`-separated tokens)
-`src` takes the mechanism flag read off the source by the translator. -/
+`c04 run <clear:0|1|src> F:<base>:<n>:<cls>:<fmt> … | <op> <op> … [| i:j i:j …]`  (ops are `:`-separated tokens)
+`src` takes the mechanism flag read off the source by the translator.
+Answer: `<out>|<out>… # <hooks>|<hooks>… # <eq><samehashkey> …` — what every operation returned, the `__array_finalize__`
+calls it made, and for every requested pair of heap positions whether the arrays are `==` and whether everything
+`__hash__` reads agrees (both by the attribute lists generated from the source). -/
 namespace Driver.C04
 open Midgard.Proto Midgard.TimeArrayHist
 
@@ -27,7 +30,17 @@ def parseOp? (tok : String) : Option Op :=
   | ["copy", t] => do pure (.copy (← t.toNat?))
   | "subset" :: t :: rest => do pure (.subset (← t.toNat?) (← parseSel? rest))
   | ["insert", a, p, b] => do pure (.insert (← a.toNat?) (← p.toInt?) (← b.toNat?))
-  | ["scale", t] => do pure (.scale (← t.toNat?))
+  | ["scale", t, c] => do pure (.scale (← t.toNat?) (← c.toNat?))
+  | ["getbad", t, "n", i] => do pure (.getBad (← t.toNat?) (.int (← i.toInt?)))
+  | "getbad" :: t :: rest => do pure (.getBad (← t.toNat?) (.sel (← parseSel? rest)))
+  | ["same", t] => do pure (.same (← t.toNat?))
+  | ["refused", t, f] => do
+    let f ← match f with
+      | "flatten" => some Refused.flatten | "astype" => some Refused.astype
+      | "unique" => some Refused.unique | "sort" => some Refused.sort | _ => none
+    pure (.refused (← t.toNat?) f)
+  | ["concat", ts, ap] => do
+    pure (.concat (← (← parseInts? ts).mapM (fun i => if i < 0 then none else some i.toNat)) (← parseBool? ap))
   | ["iter", t] => do pure (.iter (← t.toNat?))
   | ["set", t] => do pure (.set (← t.toNat?))
   | _ => none
@@ -35,16 +48,35 @@ def parseOp? (tok : String) : Option Op :=
 def showNats (l : List Nat) : String := showList toString l
 
 def showObs (o : Obs) : String :=
-  s!"{showBool o.scalar}:{showNats o.vals}:{showNats o.jd1}:{showNats o.jd2}"
+  s!"{showBool o.scalar}:{showNats o.vals}:{showNats o.jd1}:{showNats o.jd2}:{o.cls}:{o.fmt}"
 
 def showOut : Out → String
   | .arr o => "A:" ++ showObs o
   | .many os => "M:" ++ ";".intercalate (os.map showObs)
   | .error => "E"
+  | .plain v => "P:" ++ showNats v
+
+def showHook : Hook → String
+  | .plain => "P"
+  | .parent t ho => s!"T{t}{if ho then "h" else "n"}"
+
+def showHooks (l : List Hook) : String := if l.isEmpty then "-" else ",".intercalate (l.map showHook)
+
+def parsePair? (tok : String) : Option (Nat × Nat) :=
+  match tok.splitOn ":" with
+  | [i, j] => do pure (← i.toNat?, ← j.toNat?)
+  | _ => none
+
+open Midgard.Generated.TimeArrayMech in
+def showPair (h : Heap) (p : Nat × Nat) : Option String := do
+  let a ← h[p.1]?
+  let b ← h[p.2]?
+  pure (showBool (pyEq eqShapeGuard eqCompares a b) ++ showBool (hashKey hashReads a == hashKey hashReads b))
 
 def parseFresh? (tok : String) : Option Arr :=
   match tok.splitOn ":" with
   | ["F", b, n] => do pure (fresh (← b.toNat?) (← n.toNat?))
+  | ["F", b, n, c, f] => do pure (fresh (← b.toNat?) (← n.toNat?) (← c.toNat?) (← f.toNat?))
   | _ => none
 
 def handle : List String → Option String
@@ -52,8 +84,12 @@ def handle : List String → Option String
     let clear ← if clear = "src" then some Midgard.Generated.TimeArrayMech.clearsSideChannel else parseBool? clear
     let (fr, ops) := rest.span (· ≠ "|")
     let heap ← fr.mapM parseFresh?
-    let ops ← (ops.drop 1).mapM parseOp?
-    pure ("|".intercalate ((Midgard.TimeArrayHist.run clear heap ops).2.map showOut))
+    let (ops, pairs) := (ops.drop 1).span (· ≠ "|")
+    let ops ← ops.mapM parseOp?
+    let pairs ← (pairs.drop 1).mapM parsePair?
+    let r := Midgard.TimeArrayHist.run clear heap ops
+    let eqs ← pairs.mapM (showPair r.heap)
+    pure ("|".intercalate (r.outs.map showOut) ++ " # " ++ "|".intercalate (r.hooks.map showHooks) ++ " # " ++ " ".intercalate eqs)
   | _ => none
 
 end Driver.C04
